@@ -493,7 +493,14 @@ func (filter *TrzszFilter) handleTrzsz() {
 		transfer.connectToTunnel(*connector, filter.trigger.uniqueID, filter.trigger.tunnelPort)
 	}
 
-	defer filter.transfer.CompareAndSwap(transfer, nil)
+	defer func() {
+		filter.transfer.CompareAndSwap(transfer, nil)
+		// the transfer is over: dismiss a stop prompt that is still open, or it keeps swallowing the input
+		if promptPipe := filter.promptPipe.Load(); promptPipe != nil {
+			promptPipe.Close()
+			filter.promptPipe.CompareAndSwap(promptPipe, nil)
+		}
+	}()
 
 	done := make(chan struct{}, 1)
 	go func() {
